@@ -126,7 +126,13 @@ func c08exec(c *vt.Ctx, r c08run) (prof c08profile) {
 		case "send-err":
 			faults = append(faults, vchan.Fault{Op: vchan.OpSend, N: r.cause.k, Err: errC08})
 		}
-		opts := peer.ServerOpts{Concurrency: 4, AllowPush: r.sc.push, PipeLike: r.pipeLike, Faults: faults}
+		// every other scenario hands the server its channel as a non-comparable struct value
+		// (as channel.RawJSON's is) instead of a pointer
+		byValue := vt.Hash64(fmt.Sprint(r.sc.name, r.cause, r.post, r.pipeLike))%2 == 0
+		opts := peer.ServerOpts{Concurrency: 4, AllowPush: r.sc.push, PipeLike: r.pipeLike, Faults: faults, ChannelByValue: byValue}
+		if byValue {
+			c.Count("sessions_on_a_non_comparable_channel_value", 1)
+		}
 		var base atomic.Pointer[context.Context]
 		var endBase context.CancelFunc = func() {}
 		if r.sc.basectx {
@@ -237,7 +243,7 @@ func c08exec(c *vt.Ctx, r c08run) (prof c08profile) {
 		}
 		rig.Peer, rig.End = vchan.NewPair("cli", "srv", rig.Mon)
 		rig.End.PipeLike = r.pipeLike
-		rig.Srv.Start(rig.End)
+		rig.Srv.Start(rig.Chan())
 		if lateOldPeer {
 			oldPeer.Inject([]byte(peer.Req("", "i", "ghost")))
 			oldPeer.CloseQuiet()
@@ -257,6 +263,12 @@ func c08exec(c *vt.Ctx, r c08run) (prof c08profile) {
 		}
 		if !good {
 			c.Failf("restarted server does not serve: probe answered with %q", got)
+		}
+		// the new session is a session like the first: its handlers get live contexts
+		for _, e := range rig.Log.Find("h.enter", "again") {
+			if !strings.Contains(e.Info, "ctxerr=<nil>") {
+				c.Failf("after the restart the handler of a fresh call was handed a context that had already ended: %s", e.Info)
+			}
 		}
 		if st2, ok := rig.Finish(); !ok {
 			c.Failf("restarted server did not exit after its peer closed")
